@@ -34,6 +34,12 @@ def run(ctx):
         cases.append({"id": f"NU-{i}", "inputs": {"a": a, "b": b}, "impl": impl, "oracle": None, "tol": [0, 0],
                       "meta": {"func": "user-function", "dtype": d, "dclass": family.dclass(d)},
                       "lazy_subsets": [{"names": ["a"]}, {"names": ["b"]}, {"names": ["a", "b"]}, {"names": []}]})
+    # value-dependent shortcuts: a flag computed from constants has a value only when onnxruntime is importable
+    sc = c01.shortcut_cases(rnd, 60 if ctx.tier == "quick" else 600, prefix="NK")
+    for c in sc:
+        c["impl"] = c["impl"].replace("ndx.asarray(np.full(", "(ndx.asarray(np.full(").replace(", True))", ", 1)) > 0)").replace(", False))", ", 0)) > 0)") if "np.full(" in c["impl"] else c["impl"]
+        c["lazy_subsets"] = [s_ for s_ in c["lazy_subsets"] if "sigs" not in s_][:2] + [{"names": []}]
+    cases += sc
     with_ort = core.run_cases("harness.h_ops", cases, workers=14, per_case_timeout=180)
     no_ort = core.run_cases("harness.h_noort", cases, workers=14, per_case_timeout=180)
     # evaluate the models built without onnxruntime
